@@ -1,5 +1,6 @@
 mod codes;
 mod compress;
+mod e2e;
 mod edns;
 mod hdr;
 mod hostile;
@@ -46,6 +47,7 @@ fn main() {
         "inspect" => inspect::run(&a),
         "framing" => hostile::run_framing(&a),
         "hostile" => hostile::run_hostile(&a),
+        "e2e" => e2e::run(&a),
         t => {
             eprintln!("unknown topic {t}");
             std::process::exit(2);
